@@ -161,8 +161,17 @@ func Calls(fn *ssa.Function, cs ...Callee) []*ssa.Call {
 			}
 		}
 	}
+	if InlineHelpers && !inHelperScan {
+		inHelperScan = true
+		for _, h := range HelperCallees(fn) {
+			out = append(out, Calls(h, cs...)...)
+		}
+		inHelperScan = false
+	}
 	return out
 }
+
+var inHelperScan bool
 
 // CallsDeep lists calls in fn and all nested closures.
 func CallsDeep(fn *ssa.Function, cs ...Callee) []*ssa.Call {
@@ -175,12 +184,23 @@ func CallsDeep(fn *ssa.Function, cs ...Callee) []*ssa.Call {
 
 // WithClosures returns fn and all transitively nested anonymous functions.
 func WithClosures(fn *ssa.Function) []*ssa.Function {
-	out := []*ssa.Function{fn}
-	for _, a := range fn.AnonFuncs {
-		out = append(out, WithClosures(a)...)
+	out := withClosuresRaw(fn)
+	if InlineHelpers && fn.Parent() == nil && !inHelperScan {
+		out = append(out, HelperCallees(fn)...)
 	}
 	return out
 }
+
+func withClosuresRaw(fn *ssa.Function) []*ssa.Function {
+	out := []*ssa.Function{fn}
+	for _, a := range fn.AnonFuncs {
+		out = append(out, withClosuresRaw(a)...)
+	}
+	return out
+}
+
+// IsParamOf is IsParam that, in InlineHelpers mode, first resolves a helper's parameter to the argument of its only
+// call site.
 
 // Outermost returns the top-level function enclosing fn.
 func Outermost(fn *ssa.Function) *ssa.Function {
@@ -532,9 +552,26 @@ func IsParam(v ssa.Value, i int) bool {
 	if !ok {
 		return false
 	}
+	if InlineHelpers && helperArg != nil {
+		for k := 0; k < 4; k++ {
+			a := helperArg(pv)
+			if a == nil {
+				break
+			}
+			npv, isP := a.(*ssa.Parameter)
+			if !isP {
+				return false
+			}
+			pv = npv
+		}
+	}
 	ps := pv.Parent().Params
 	return i < len(ps) && ps[i] == pv
 }
+
+// helperArg resolves a parameter of an unexported helper with exactly one static call site in the repository to the
+// argument passed there (nil otherwise). Installed by Load.
+var helperArg func(pv *ssa.Parameter) ssa.Value
 
 // SliceLitElems returns the elements of a slice built from a composite literal ([]T{a,b,c}): the value must be
 // a Slice of a fresh array Alloc whose elements are stored through constant IndexAddr. nil if not of that shape.
